@@ -268,6 +268,11 @@ static int do_push(vf_rng *r)
 		n = 0;
 	}
 	push_path();
+	/* finished frames partly taken by the transport (offset moved), push larger than the room behind the queued data */
+	if (C.eq.data.off && C.eq._state.done && n > C.eq.data.max - C.eq.data.len) {
+		vf_count("state:large-push-behind-queued-frames-at-offset", 1);
+		if (C.eq.data.max - C.eq.data.off > C.eq._state.done + C.eq._state.scratch) vf_count("state:large-push-partial-append-in-lower-part", 1);
+	}
 	vf_at("mpt_queue_push");
 	vf_count("mpt_queue_push", 1);
 	ret = mpt_queue_push(&C.eq, n, piece);
